@@ -36,6 +36,9 @@ type comment struct {
 // commentBody is the text table of comment payloads (after the marker).
 func commentBody(c comment) string {
 	switch c.Sp {
+	case "canary":
+		// planted fault (checks/c09.py): with the marker /* this is not a comment only, it carries a statement
+		return " x */ log \"canary\"; /* y"
 	case "fastly":
 		return "FASTLY RECV"
 	case "ignore":
